@@ -8,6 +8,9 @@
 //	config-flags    texts with exactly one syntax feature under all accepted parse.Config combinations
 //	short-texts     all short texts over a small JSON alphabet that encoding/json accepts (differential)
 //	seed-texts      the hostile constants that also seed the native fuzz target (differential)
+//	repeated-calls  histories of calls on the same text / document / configuration with the caller
+//	                changing earlier results in between: every call returns the data of its text,
+//	                no two results share a map or a slice (repeat_test.go)
 //	FuzzJSONRoundTrip  native fuzz target with the differential oracle inside (thorough tier only)
 package c17
 
